@@ -94,7 +94,16 @@ theorem build_tasks : ∀ (v : View) (st : St), v.core = true → ∀ e, e ∈ (
         · exact Or.inr (by simp [effsOf, h1])
     · exact Or.inr (by simp [effsOf, h])
   | «show» c a b _ _ => intro st hc; simp [View.core] at hc
-  | forKeyed sel lists => intro st hc; simp [View.core] at hc
+  | forKeyed sel lists =>
+    intro st _ e h
+    rw [build_forKeyed] at h ⊢
+    dsimp only at h ⊢
+    obtain ⟨n, hbn⟩ := buildFor_st (newEff st sel).2.2 (listAt lists (newEff st sel).2.1)
+    rw [hbn] at h
+    simp only [St.spawn, List.mem_append, List.mem_singleton] at h
+    rcases h with h | h
+    · exact Or.inl h
+    · exact Or.inr (by simp [effsOf, h])
 
 
 /-! ## the start state -/
